@@ -74,7 +74,7 @@ def run_check(cid, tier, seed, jobs, budget_override=None, keep=False):
         log = open(os.path.join(scratch, f"w{s}.log"), "w")
         p = subprocess.Popen(worker_cmd(cid, tier, seed, s, nshards, out, budget), env=env, stdout=log, stderr=subprocess.STDOUT, cwd=scratch)
         procs.append((p, out, log))
-    watchdog = budget * 3 + 120
+    watchdog = budget * 8 + 300
     dead = []
     for p, out, log in procs:
         try:
